@@ -1558,6 +1558,17 @@ def driver_source(specs, status, src_root):
             elif spec["lean"] == "Output__clear_data_files":
                 cases.append('  | "Output__clear_data_files" => toJ (Tr.Output__clear_data_files (α := Int) (φ := List (Int × Int)) '
                              + " ".join(f"(fromJ (argAt args {i}))" for i in range(6)) + " " + isf + " " + nb.replace("K", "6") + " " + rm + ")")
+            elif spec["lean"] == "TimeCachingAdapter__clear_cached_data_files":
+                cases.append('  | "TimeCachingAdapter__clear_cached_data_files" => toJ (Tr.TimeCachingAdapter__clear_cached_data_files (α := Int) '
+                             '(φ := List (Int × Int)) ' + " ".join(f"(fromJ (argAt args {i}))" for i in range(4)) + " " + isf + " "
+                             + nb.replace("K", "4") + " " + rm + ")")
+            elif spec["lean"] == "TimeCachingAdapter__unpack":
+                cases.append('  | "TimeCachingAdapter__unpack" => toJ (Tr.TimeCachingAdapter__unpack (α := Int) (φ := List (Int × Int)) '
+                             '(fromJ (argAt args 0)) (fromJ (argAt args 1)) ' + isf
+                             + ' (fun fs x => match fs.lookup x with | some d => Except.ok d | none => Except.error Err.other))')
+            elif spec["lean"] == "TimeCachingAdapter__finalize":
+                cases.append('  | "TimeCachingAdapter__finalize" => toJ (Tr.TimeCachingAdapter__finalize (α := Int) (φ := List (Int × Int)) '
+                             '(fromJ (argAt args 0)) (fromJ (argAt args 1)) ' + isf + " " + rm + ")")
             elif spec["lean"] == "Output_finalize":
                 cases.append('  | "Output_finalize" => toJ (Tr.Output_finalize (α := Int) (φ := List (Int × Int)) (fromJ (argAt args 0)) '
                              '(fromJ (argAt args 1)) ' + isf + " " + rm + ")")
